@@ -23,12 +23,14 @@ FULL = [('pyfull', yaml.FullLoader), ('cfull', yaml.CFullLoader)]
 
 M1 = ['{a: 1, b: 2}', '{}', '{c: 3, a: 1}', '{a: 1, [x]: 2}']
 M2 = ['{b: 3}', '{<<: *m1, b: 3}', '{<<: *m1}', '{<<: [*m1], c: 4, a: 5}', '{a: 6, <<: *m1, b: 7}']
-M3 = [None, '{<<: *m2, c: 8}', '{<<: [*m2, *m1], d: 9}']
+M3 = [None, '{<<: *m2, c: 8}', '{<<: [*m2, *m1], d: 9}', '{<<: *m1, b: 33, a: 34}']
 OWN = ['!!seq x: 1', '!!map y: 2', '!!set z: 3', 'a: 10', 'b: 20', 'c: 30', 'a: 11', '1: x', '1.0: y', 'true: z', "'<<': 5", '!!str <<: 6', '[k]: 7', '{k: v}: 8', 'e: *m1', '"<<": *m1']
 MERGES = ['<<: *m1', '<<: *m2', '<<: [*m1, *m2]', '<<: [*m2, *m1]', '<<: {a: 90, z: 91}', '<<: [{a: 92}, *m1]', '<<: x', '<<: ~', '<<: [x]',
           '<<: [[*m1]]', '<<: []', '<<: [*m1, *m1]', '<<: {<<: *m2, q: 1}', '<<: *m3',
           # members of a merge list that are written in place and carry a merge of their own; merged keys whose text equals
           # the text of an own key of another type ('1' / 1, 'true' / true) or is the same key written differently
+          # two sources that share a base (a diamond when m2 and m3 both merge m1): the earlier list member wins
+          '<<: [*m2, *m3]', '<<: [*m3, *m2]',
           '<<: [{<<: *m1, q: 1}, {<<: [{s: 7}], a: 93}]', "<<: {'1': 94, 'true': 95, !!str a: 96, 1.0: 97}"]
 
 
@@ -46,11 +48,16 @@ def consumers(maxitems):
             yield t
 
 
-def doc_text(i1, i2, i3, items):
+def doc_text(i1, i2, i3, items, deep=False):
+    """deep: the second and third source are not items of the top-level sequence but sit one level further down (they
+    are still under construction, with their own merge key pending, when a later sibling merges them)"""
     pool = OWN + MERGES
-    lines = ['- &m1 ' + M1[i1], '- &m2 ' + M2[i2]]
-    if M3[i3] is not None:
-        lines.append('- &m3 ' + M3[i3])
+    if deep:
+        lines = ['- &m1 ' + M1[i1], '- {w: {in: &m2 ' + M2[i2] + '}' + ('' if M3[i3] is None else ', v: [&m3 ' + M3[i3] + ']') + '}']
+    else:
+        lines = ['- &m1 ' + M1[i1], '- &m2 ' + M2[i2]]
+        if M3[i3] is not None:
+            lines.append('- &m3 ' + M3[i3])
     body = '{' + ', '.join(pool[i] for i in items) + '}'
     lines += ['- ' + body, '- ' + body, '- *m1', '- *m2']
     if M3[i3] is not None:
@@ -128,7 +135,7 @@ def _short(x, n=200):
 def check_merge_doc(T, i1, i2, i3, items, loaders):
     text = doc_text(i1, i2, i3, items)
     pool = OWN + MERGES
-    if M3[i3] is None and any(pool[i].endswith('*m3') for i in items):
+    if M3[i3] is None and any('*m3' in pool[i] for i in items):
         return
     exp = check_doc(T, 'merge', text, loaders, {'doc': text, 'm': [i1, i2, i3], 'items': list(items)})
     nontriv = any(i >= len(OWN) for i in items) or len(set(items)) != len(items) or (exp and exp[0] == 'reject') or '<<' in M2[i2]
@@ -139,6 +146,9 @@ def check_merge_doc(T, i1, i2, i3, items, loaders):
         k = 3 if M3[i3] is not None else 2
         if canon(v[k], False) != canon(v[k + 1], False):
             T.violation('merge', 'oracle-self-check', {'doc': text}, detail='O-merge gives different values for the two consumer copies')
+    if len(items) <= 2 and any(i >= len(OWN) for i in items):
+        text2 = doc_text(i1, i2, i3, items, deep=True)
+        check_doc(T, 'merge', text2, loaders, {'doc': text2, 'm': [i1, i2, i3], 'items': list(items), 'deep': True})
 
 
 # ---------------------------------------------------------------- set / omap / pairs shapes
